@@ -113,6 +113,12 @@ def build(env, sessions_per_cell, huge):
             for pk in hostile_enc[:6] + hostile_enc[-3:]:
                 s.call("setup_s", mode=mode, pkr=pk, info=g.rbytes(rnd.choice([0, 9])), rng=g.rbytes(nsk), out="Y", cls="hostile_pkR", **sargs)
             s.call("ss_seal", mode=mode, pkr=hostile_enc[-1], info="-", pt="00", aad="-", rng=g.rbytes(nsk), api="inplace", cls="hostile_pkR", **sargs)
+            if mode in (2, 3):
+                # an identity key pair whose halves do not belong together is legal input: setup may only fail with EncapError
+                sa2 = dict(sargs)
+                sa2["pks"] = "$kR.pk"
+                s.call("setup_s", mode=mode, pkr="$kR.pk", info="-", rng=g.rbytes(nsk), out="Y", cls="mismatched_identity_pair", **sa2)
+                s.call("ss_seal", mode=mode, pkr="$kR.pk", info="-", pt="00", aad="-", rng=g.rbytes(nsk), api="inplace", cls="mismatched_identity_pair", **sa2)
             # --- export with hostile contexts and lengths
             nh = {1: 32, 2: 48, 3: 64}[kdf]
             for L in (0, 1, 255 * nh, 255 * nh + 1, 65535, 65536, 65537, 1 << 20):
